@@ -521,6 +521,8 @@ STATE_NAME_CHAINS = [
 
 
 def check_C13(ctx, rep):
+    small_models3.check_simple_cfg_roundtrip(ctx, rep)
+    rep.clauses_decided.append('parse_simple_cfg(cfg_print_simple(G)) has the rules of G in order, its variables, terminals and start variable on seven model grammars in the simple format: the empty alternative on the first line, on a later line only, in the middle of a line, nowhere (M39, finite model)')
     small_models2.check_chomsky_phases(ctx, rep, [ctx.prog.func('cfg_algorithms.' + n0) for n0 in small_models2._PHASES], first_rule=True)
     rep.clauses_decided.append('after every phase of the Chomsky conversion the first rule belongs to the start variable on eleven model grammars under two iteration orders of sets -- the simple text format, in which the answer of each phase is printed, has no start declaration and its reader takes the variable of the first rule (M28 with the first-rule clause, finite model)')
     small_models3.check_text_roundtrip(ctx, rep)
@@ -565,6 +567,8 @@ def check_C13(ctx, rep):
 
 
 def check_C16(ctx, rep):
+    small_models3.check_simple_cfg_roundtrip(ctx, rep)
+    rep.clauses_decided.append('parse_simple_cfg(cfg_print_simple(G)) has the rules of G in order, its variables, terminals and start variable on seven model grammars in the simple format: the empty alternative on the first line, on a later line only, in the middle of a line, nowhere (M39, finite model)')
     small_models3.check_text_roundtrip(ctx, rep)
     rep.clauses_decided.append('parse_X(print_X(A)) equals A field by field on model DFAs, NFAs, PDAs and TMs (empty accepting set, empty alphabet, states without transitions, several labels per edge, names that are prefixes of one another, states named like keywords of the other kinds, declared symbols that no transition uses, epsilon / blank symbols other than the default) under two iteration orders of sets (M35, finite model; the line parser, the builders and the class invariants are interpreted by the analyser, re functions on model strings are the analyser\'s own)')
     rep.clauses_decided += ['keywords (R-IO a)', 'label layout roles and arity (R-IO b)', 'operator tokens, precedence order, symbol class (R-IO d)',
